@@ -8,6 +8,7 @@ import (
 
 func init() {
 	vr.Register("Harness_C03_stops", Harness_C03_stops)
+	vr.Register("Harness_C03_rings", Harness_C03_rings)
 	vr.Register("Harness_C03_routes", Harness_C03_routes)
 	vr.Register("Harness_C03_trips", Harness_C03_trips)
 	vr.Register("Harness_C03_transfers", Harness_C03_transfers)
@@ -255,4 +256,43 @@ func Harness_C03_stoptimes() {
 		}
 	}
 	vr.Assert("C03.stoptime.count", total == want)
+}
+
+// N stops with concrete ids; each names as its parent nobody, the next stop or
+// the first stop: every chain and every ring of up to N stops (rings of every
+// length 1..N close through "first"). Walking to the root terminates from
+// every stop, and each parent is the stop its row names.
+func Harness_C03_rings() {
+	N := vr.Param("N", 6)
+	ids := []string{"s1", "s2", "s3", "s4", "s5", "s6", "s7", "s8"}[:N]
+	var rows [][]string
+	var parent []string
+	for i := 0; i < N; i++ {
+		p := ""
+		switch hConcretize(vr.Int(vr.T("stop", i, ".parent"), 0, 2), 0, 2) {
+		case 1:
+			p = ids[(i+1)%N]
+		case 2:
+			p = ids[0]
+		}
+		parent = append(parent, p)
+		rows = append(rows, []string{ids[i], "n", p})
+	}
+	files := hBase()
+	files["stops.txt"] = vr.File{Name: "stops.txt", Header: []string{"stop_id", "stop_name", "parent_station"}, Rows: rows}
+	r := hParse(files, ParseStaticOptions{})
+	if r == nil {
+		return
+	}
+	vr.Assert("C03.rings.count", len(r.Stops) == N)
+	if len(r.Stops) != N {
+		return
+	}
+	for i := range r.Stops {
+		root := r.Stops[i].Root() // must return
+		vr.Assert("C03.forest.root", root != nil && root.Parent == nil)
+		if r.Stops[i].Parent != nil {
+			vr.Assert("C03.parent.row", r.Stops[i].Parent.Id == parent[i])
+		}
+	}
 }
